@@ -30,6 +30,7 @@ Classify(cfg, o, w) ==
        \E d \in Sub(o, w.a) : ~o.snap[d].sig /\ o.snap[d].res # <<>> /\ ResDone(o.snap[d]) /\ InNoHistory(o, d)            -> "F11"
     [] w.c = "C04.incomplete" /\ w.k = "held"                                -> "F1"
     [] w.c = "C02.fifo" /\ w.k = "in"                                        -> "G1"
+    [] w.c = "C06.overlap" /\ w.k = "parsib"                                 -> "G9"
     [] w.c = "C16.start_after_stop" /\ w.k = "in"                            -> "G2"
     [] w.c = "C16.start_after_stop" /\ w.k = "rl_restart"                    -> "G3"
     [] w.c \in {"C08.regress", "C08.results_added"} /\ w.k = "newbus"        -> "F4"
